@@ -76,7 +76,8 @@ def registry(cid, tier='thorough'):
                                '%s(%d, %s, priv_a._d._value, priv_b._d._value)' % (assoc, cid, G),
                                '%s(%d, %s, priv_b._d._value, priv_a._d._value)' % (assoc, cid, G)],
                      raises={'ValueError': ('iff', neutral_test(cid, KE.mul_G(cid, 'priv_a._d._value * priv_b._d._value')))},
-                     ensures={'same_Z': 'bytes(result[0]) == bytes(result[1])'}, modifies=['pub_a._point', 'pub_b._point']))
+                     ensures={'same_Z': 'bytes(result[0]) == bytes(result[1])'}, modifies=['pub_a._point', 'pub_b._point'],
+                     inline=inl + [D + '_compute_ecdh']))      # the two calls are executed from the real source
     # role matrix (SP 800-56A r3 6.1-6.3: C(2e,2s), C(2e,0s), C(1e,2s), C(1e,1s), C(0e,2s)); every key is on this registry's curve
     def zs(priv, pub):
         return 'old(%s)' % z_bytes(cid, Z_expr(cid, 'kwargs["%s"]' % priv, 'kwargs["%s"]' % pub))
